@@ -37,7 +37,7 @@ TInit ==
   /\ pstat = [p \in DOMAIN exp.nres |-> "idle"] /\ ncall = [p \in DOMAIN exp.nres |-> 0]
   /\ cargs = [t \in 1..NT |-> <<>>]
   /\ written = ParamNames
-  /\ val = [v \in VarNames |-> IF v \in ParamNames THEN ArgTerm(ParamType(v)) ELSE "?"]
+  /\ val = [v \in VarNames |-> IF v \in ParamNames THEN ArgTerm(ParamType(v)) ELSE P.vzero[v]]
   /\ knows = [t \in 1..NT |-> ParamNames]
   /\ endK = {} /\ egErr = "" /\ ictx = FALSE /\ cctx = FALSE
   /\ mainRet = NoRet
@@ -65,14 +65,14 @@ Reset ==
              /\ written' = pn
              /\ val' = [v \in vn |-> IF v \in pn
                                      THEN ArgTerm((LET i == CHOOSE j \in DOMAIN Q.ptype : Q.ptype[j][1] = v IN Q.ptype[i][2]))
-                                     ELSE "?"]
+                                     ELSE Q.vzero[v]]
              /\ knows' = [t \in 1..n |-> pn]
              /\ endK' = {} /\ egErr' = "" /\ ictx' = FALSE /\ cctx' = FALSE
              /\ mainRet' = NoRet /\ flag' = {}
 
 ArgsMatch(model, real) ==
   /\ Len(model) = Len(real)
-  /\ \A i \in DOMAIN model : model[i] \in {"?", "zero"} \/ model[i] = real[i]
+  /\ \A i \in DOMAIN model : model[i] = "?" \/ model[i] = real[i]
 
 (* injected constants (kessoku.Value) are not instrumented: their call is silent *)
 IsValueCall(t) == pc[t] <= Len(Thr(t)) /\ I(t).op = "call" /\ I(t).p \in DOMAIN exp.kind /\ exp.kind[I(t).p] = "value"
@@ -113,7 +113,7 @@ VReturn ==
   /\ mainRet.done
   /\ mainRet.rline = E.site
   /\ ClsMatch(E.cls, mainRet.err)
-  /\ (mainRet.val \in {"zero", "?", ""} \/ mainRet.val = E.term)
+  /\ (mainRet.val \in {"zero", "nil", "?", ""} \/ mainRet.val = E.term)
   /\ UNCHANGED vars
 
 VHang ==
